@@ -2,10 +2,10 @@
 (confirmation data are read from /tmp/seedres/<name>.json and /tmp/seedres/tests_<name>.txt)."""
 import json, os, shutil, sys
 m = sys.argv[1].rstrip("/")
-name = os.path.basename(m).replace("mut_", "")
+name = os.path.basename(m).replace("mut_", "").replace("m2_", "w2_")
 pid = name.split("_")[0]
-res = json.load(open(f"/tmp/seedres/mut_{name}.json"))
-tests = open(f"/tmp/seedres/tests_mut_{name}.txt").read().strip() if os.path.exists(f"/tmp/seedres/tests_mut_{name}.txt") else "not run"
+res = json.load(open(f"/tmp/seedres/{os.path.basename(m)}.json"))
+tf = f"/tmp/seedres/tests_{os.path.basename(m)}.txt"; tests = open(tf).read().strip() if os.path.exists(tf) else "not run"
 ok = res.get("patch_applies") and res.get("demo_without") == 0 and res.get("demo_with") == 1 and "36 passed" in tests
 dst = f"/verif/seeded/{name}"
 if not ok:
